@@ -50,6 +50,9 @@ void vr_watch(int64_t id, const unsigned char *p, uint64_t len) {
     if (vr_nwatch < VR_MAX_WATCH) { vr_watch_tab[vr_nwatch].p = p; vr_watch_tab[vr_nwatch].len = len; vr_watch_tab[vr_nwatch].id = id; vr_nwatch++; }
 }
 void vr_flush(void) { fflush(stdout); }
+/* run-time parameters of one execution (set by the harness through the environment) */
+int64_t vr_sel(void) { const char *s = getenv("VR_SEL"); return s ? atoll(s) : 0; }
+int64_t vr_arg(void) { const char *s = getenv("VR_ARG"); return s ? atoll(s) : 0; }
 /* opaque source of runtime values so that nothing is folded at compile time */
 int64_t vr_opaque_i64(int64_t v) { return v; }
 uint64_t vr_opaque_u64(uint64_t v) { return v; }
